@@ -1219,6 +1219,18 @@ def r_relaunch(e, R):
                 "configured as errors it raises, ensure_running exits with `_fd` holding the number of a closed descriptor and no tracker; once the application "
                 "opens another file that number is reused, the liveness probe succeeds on it and every later REGISTER / UNREGISTER is written into that file: "
                 "nothing is tracked any more (semaphores of a killed process stay in /dev/shm)", e.loc(er, cn.ast), g.fmt_path(stale) if stale else None)
+        # the same holds for the reap and for the pid: a warning that raises before os.waitpid / `self._pid = None` leaves ensure_running with
+        # `_fd` cleared, so the next call skips the dead-tracker branch, launches a new tracker and overwrites `_pid`: the dead one is never
+        # reaped -- one zombie child per tracker death (seed C20-r7)
+        for what, stops, txt in (("reaped", reaps, "os.waitpid(self._pid, 0)"), ("forgotten (`_pid = None`)", resets["_pid"], "self._pid = None")):
+            if not stops:
+                continue
+            early = g.find_path(cn, warns_, avoid=stops, use_exc=False)
+            R.check(early is None, "R-RELAUNCH", f"ensure_running: the dead tracker is {what} before anything that can be made to raise", er.short,
+                    f"os.close(self._fd); ...; {txt}; warnings.warn(...)", f"warnings.warn runs before the dead tracker is {what}: with warnings configured as "
+                    "errors it raises out of ensure_running; the next call finds `_fd` cleared, launches a new tracker and overwrites `_pid`, so the dead "
+                    "tracker is never reaped (one zombie child of the application per tracker death) / the stale pid is waited for later",
+                    e.loc(er, cn.ast), g.fmt_path(early) if early else None)
     for n in [x for v in resets.values() for x in v]:
         R.check(g.path_exists(n, lambda x: x in sp, use_exc=False) and
                 g.find_path(n, lambda x: x is g.exit, avoid=sp, use_exc=False) is None, "R-RELAUNCH",
